@@ -103,6 +103,20 @@ def c05_tables(tier, seed):
             if bad and len(viol) < 10:
                 viol.append({'id': 'table%d-T%g' % (t, T), 'input': {'Ts': [Ts[i] for i in order], 'Cps': [Cps[i] for i in order], 'T_ref': T_ref, 'H_ref': H, 'S_ref': S, 'range': [lo, hi], 'T': T},
                              'observed': bad, 'expected': 'closed-form integrals of the extended Cp'})
+        # Cp/R for an ARRAY of temperatures (integer- and float-typed) equals the scalar answers
+        n += 1
+        grid_i = np.arange(int(lo) + 1, int(hi), max(1, (int(hi) - int(lo)) // 7))
+        for grid in (grid_i, grid_i.astype(float) + 0.25):
+            grid = grid[(grid >= lo) & (grid <= hi)]
+            if len(grid) == 0:
+                continue
+            with real.quiet():
+                arr = real.outcome(c.get_CpoR, grid)
+                sc = [c.get_CpoR(float(t_)) for t_ in grid]
+            if arr[0] != 'ok' or len(np.atleast_1d(arr[1])) != len(sc) or any(not real.close(float(a_), b_, 1e-12, 1e-12) for a_, b_ in zip(np.atleast_1d(arr[1]), sc)):
+                if len(viol) < 12:
+                    viol.append({'id': 'table%d-array-%s' % (t, grid.dtype), 'input': {'Ts': [Ts[i] for i in order], 'Cps': [Cps[i] for i in order], 'T_ref': T_ref, 'range': [lo, hi], 'T array': [float(x) for x in grid], 'dtype': str(grid.dtype)},
+                                 'observed': str(arr)[:200], 'expected': sc})
         if len(samples) < 3:
             samples.append({'Ts': [Ts[i] for i in order], 'T_ref': T_ref, 'range': [lo, hi]})
     return {'name': 'tables-vs-quadrature', 'evaluations': n, 'distinct_nontrivial': ntab, 'violations': viol, 'samples': samples,
@@ -983,6 +997,8 @@ def c02_reference(tier, seed):
             dup = {'center_name': 'Cdup', 'periph_name': 'Cdup', 'connectivity': 'fragment a{ C labeled c1 {connected to >2 H} }'}
             variants = {'overlap-last': lambda d: d['patterns'].append(dict(dup)), 'overlap-first': lambda d: d['patterns'].insert(0, dict(dup)),
                         'pattern-removed': lambda d: d['patterns'].pop(0),
+                        # remap rules with a negative and a zero coefficient: linear substitution keeps negative totals
+                        'negative-remap': lambda d: d.setdefault('remaps', {}).update({'C(C)(H)3': [[1, 'Methyl'], [-0.5, 'Penalty'], [0, 'Nothing']]}),
                         'smiles-smarts-entries': lambda d: d.update({'smiles_based_descriptors': [{'name': 'Cis', 'smarts': '[CX4][OX2H]', 'useChirality': False},
                                                                                                {'name': 'Alcohol', 'smarts': '[OX2H]', 'useChirality': False}],
                                                                       'smarts_based_descriptors': [{'name': 'Alcohol', 'smarts': '[#6][#8][#1]', 'useChirality': False}]})}
